@@ -1,0 +1,216 @@
+//go:build verif
+
+// Machine-checked contracts for package disk (comment-only; read by /verif/govc).
+// Property C07: the disk blob store behaves like its capacity-bounded LRU model.
+//
+// View: blobs is a finite map key -> (size, complete, banned); the evictable set is the set of
+// members of evictQueue (container/list rank model), ordered by rank. dsize(s.blobs) is the ghost
+// sum of the sizes of the stored blobs. The file system (os.* calls) is outside the model: every
+// such call may succeed or fail arbitrarily, and the contracts say what the in-memory view does
+// in either case.
+
+package disk
+
+//@ ghostsum dsize over map[string]*blob of v.size
+
+//@ specfunc nodeok(s *store, e *list.Element) bool = e.Value != nil && dyntype(e.Value) == typeid(string) && (unbox(e.Value, string) in s.blobs) && s.blobs[unbox(e.Value, string)].node == e
+//@ specfunc inscope(b *blob, scope storelib.BlobScope) bool = !((b.complete && scope == storelib.BlobScopeIncomplete) || (!b.complete && scope == storelib.BlobScopeComplete))
+
+//@ lockinv store.mu self s guards contents blobs, size, type blob, type list.Element, type list.List
+//@   invariant accounted: s.size == dsize(s.blobs)
+//@   invariant bounded: s.size <= s.capacity
+//@   invariant blob_ptr: forall k string :: k in s.blobs ==> s.blobs[k] != nil && allocated(s.blobs[k])
+//@   invariant blob_evictable: forall k string :: k in s.blobs ==> ((s.blobs[k].node != nil) <==> (s.blobs[k].complete && !s.blobs[k].evictionBanned))
+//@   invariant blob_node: forall k string :: k in s.blobs && s.blobs[k].node != nil ==> allocated(s.blobs[k].node) && s.blobs[k].node.list == s.evictQueue && s.blobs[k].node.Value == box(k)
+//@   invariant blob_distinct: forall k1 string, k2 string :: k1 in s.blobs && k2 in s.blobs && k1 != k2 ==> s.blobs[k1] != s.blobs[k2]
+//@   invariant queue_ok: forall e *list.Element :: e.list == s.evictQueue ==> nodeok(s, e)
+//@   invariant queue_wf: listwf(s.evictQueue)
+
+//@ specfunc sshape(s *store) bool = s != nil && s.blobs != nil && s.evictQueue != nil && allocated(s.evictQueue) && s.config != nil && s.pather != nil
+
+// A blob is out of scope iff its completeness contradicts the requested scope.
+//@ func isOutOfScope
+//@   requires b != nil
+//@   ensures result == nil <==> inscope(b, scope)
+
+// Metrics only.
+//@ func store.emitUsageMetrics
+//@   trusted
+
+// Path construction: pure string functions of the key.
+//@ func pather.blobPath
+//@   trusted
+//@ func pather.dirPath
+//@   trusted
+//@ func pather.sidecarFilePath
+//@   trusted
+
+// Writes one sidecar file; touches no in-memory state.
+//@ func store.persistBlobSize
+//@   trusted
+//@ func store.deleteFromDisk
+//@   trusted
+//@ func store.tryDeleteImmovableMetadata
+//@   trusted
+
+// ---- invariants as spec functions (for functions running with the lock held) --------------------
+//@ specfunc i_ptr(s *store) bool = forall k string :: k in s.blobs ==> s.blobs[k] != nil && allocated(s.blobs[k])
+//@ specfunc i_evictable(s *store) bool = forall k string :: k in s.blobs ==> ((s.blobs[k].node != nil) <==> (s.blobs[k].complete && !s.blobs[k].evictionBanned))
+//@ specfunc i_node(s *store) bool = forall k string :: k in s.blobs && s.blobs[k].node != nil ==> allocated(s.blobs[k].node) && s.blobs[k].node.list == s.evictQueue && s.blobs[k].node.Value == box(k)
+//@ specfunc i_distinct(s *store) bool = forall k1 string, k2 string :: k1 in s.blobs && k2 in s.blobs && k1 != k2 ==> s.blobs[k1] != s.blobs[k2]
+//@ specfunc i_queue(s *store) bool = forall e *list.Element :: e.list == s.evictQueue ==> nodeok(s, e)
+//@ specfunc i_all(s *store) bool = sshape(s) && s.size == dsize(s.blobs) && s.size <= s.capacity && listwf(s.evictQueue) && i_ptr(s) && i_evictable(s) && i_node(s) && i_distinct(s) && i_queue(s)
+//@ specfunc only_evictions(s *store) bool = forall k string :: (k in s.blobs ==> old(k in s.blobs) && s.blobs[k] == old(s.blobs[k])) && (old(k in s.blobs) && !(k in s.blobs) ==> old(s.blobs[k].complete) && !old(s.blobs[k].evictionBanned))
+//@ specfunc lru_first(s *store) bool = forall k1 string, k2 string :: old(k1 in s.blobs) && !(k1 in s.blobs) && (k2 in s.blobs) && s.blobs[k2].node != nil ==> old(s.blobs[k1].node.rank) < s.blobs[k2].node.rank
+//@ specfunc ranks_same(s *store) bool = forall k string :: (k in s.blobs) && s.blobs[k].node != nil ==> s.blobs[k].node.rank == old(s.blobs[k].node.rank)
+//@ specfunc shape_same(s *store) bool = s.blobs == old(s.blobs) && s.evictQueue == old(s.evictQueue) && s.capacity == old(s.capacity) && s.config == old(s.config) && s.pather == old(s.pather)
+
+// Runs with s.mu held. Callers pass the size of a blob they have just removed, or the size they
+// have just reserved, which the accounting bounds by s.size: the "release more than reserved"
+// branch is dead code.
+//@ func store.releaseSpace
+//@   held s.mu
+//@   requires s != nil && space <= s.size
+//@   modifies s.size
+//@   ensures released: s.size == old(s.size) - space
+
+// ensureFreeSpace runs with s.mu held. It evicts evictable blobs (complete and not banned), least
+// recently used first, until `space` more bytes fit; it does not reserve them. On errNoSpace
+// nothing evictable is left; on a file-system error the evictions made so far stay consistent.
+//@ func store.ensureFreeSpace
+//@   held s.mu
+//@   requires i_all(s)
+//@   nopanic
+//@   modifies *
+//@   ensures fits: result == nil ==> s.size + space <= s.capacity
+//@   ensures no_space: result == errNoSpace ==> s.evictQueue.len == 0 && s.size + space > s.capacity
+//@   ensures acct: s.size == dsize(s.blobs) && s.size <= s.capacity
+//@   ensures shape: sshape(s) && shape_same(s)
+//@   ensures only_evictions: only_evictions(s)
+//@   ensures lru_first: lru_first(s)
+//@   ensures ranks_same: ranks_same(s)
+//@   ensures inv_ptr: i_ptr(s)
+//@   ensures inv_evictable: i_evictable(s)
+//@   ensures inv_node: i_node(s)
+//@   ensures inv_distinct: i_distinct(s)
+//@   ensures inv_queue: i_queue(s) && listwf(s.evictQueue)
+//@   loop 0 invariant acct: s.size == dsize(s.blobs) && s.size <= s.capacity && sshape(s)
+//@   loop 0 invariant shape: shape_same(s)
+//@   loop 0 invariant only_evictions: only_evictions(s)
+//@   loop 0 invariant lru_first: lru_first(s)
+//@   loop 0 invariant ranks_same: ranks_same(s)
+//@   loop 0 invariant inv_ptr: i_ptr(s)
+//@   loop 0 invariant inv_evictable: i_evictable(s)
+//@   loop 0 invariant inv_node: i_node(s)
+//@   loop 0 invariant inv_distinct: i_distinct(s)
+//@   loop 0 invariant inv_queue: i_queue(s) && listwf(s.evictQueue)
+
+// Create admits the blob iff it fits after evicting, stores it incomplete and unbanned with
+// exactly the requested size; when a file-system step fails the reservation is given back.
+//@ func store.Create
+//@   requires sshape(s)
+//@   nopanic
+//@   modifies *
+//@   ensures exists: old(key in s.blobs) ==> result0 == nil && result1 != nil && (forall k string :: ((k in s.blobs) <==> old(k in s.blobs)) && s.blobs[k] == old(s.blobs[k])) && s.size == old(s.size)
+//@   ensures created: result1 == nil ==> result0 != nil && !old(key in s.blobs) && (key in s.blobs) && s.blobs[key].size == sizeBytes && !s.blobs[key].complete && !s.blobs[key].evictionBanned && s.blobs[key].node == nil && fresh(s.blobs[key])
+//@   ensures refused: result1 != nil ==> result0 == nil && (!(key in s.blobs) || old(key in s.blobs))
+//@   ensures others: forall k string :: k != key && (k in s.blobs) ==> old(k in s.blobs) && s.blobs[k] == old(s.blobs[k])
+//@   ensures evicted_only: forall k string :: k != key && old(k in s.blobs) && !(k in s.blobs) ==> old(s.blobs[k].complete) && !old(s.blobs[k].evictionBanned)
+
+// Opening a blob makes it the most recently used evictable blob; nothing else changes (also when
+// the file cannot be opened).
+//@ func store.Open
+//@   requires sshape(s)
+//@   modifies *
+//@   ensures missing: !old(key in s.blobs) ==> result1 != nil
+//@   ensures out_of_scope: old(key in s.blobs) && !inscope(s.blobs[key], scope) ==> result1 != nil
+//@   ensures keys_same: forall k string :: ((k in s.blobs) <==> old(k in s.blobs)) && s.blobs[k] == old(s.blobs[k])
+//@   ensures most_recent: old(key in s.blobs) && inscope(s.blobs[key], scope) && s.blobs[key].node != nil ==> (forall e *list.Element :: e.list == s.evictQueue ==> e.rank <= s.blobs[key].node.rank)
+//@   ensures size_same: s.size == old(s.size)
+//@   ensures no_handle: result1 != nil ==> result0 == nil
+
+//@ func store.Has
+//@   requires sshape(s)
+//@   ensures in_store: inStore <==> (key in s.blobs)
+//@   ensures in_scope: inScope <==> ((key in s.blobs) && inscope(s.blobs[key], scope))
+
+//@ func store.Stat
+//@   requires sshape(s)
+//@   ensures missing: !(key in s.blobs) ==> result1 != nil
+//@   ensures out_of_scope: (key in s.blobs) && !inscope(s.blobs[key], scope) ==> result1 != nil
+
+// List returns exactly the keys of the blobs in scope.
+//@ func store.List
+//@   requires sshape(s)
+//@   ensures sound: forall i int :: 0 <= i && i < len(result) ==> (result[i] in s.blobs) && inscope(s.blobs[result[i]], scope)
+//@   ensures complete: forall k string :: (k in s.blobs) && inscope(s.blobs[k], scope) ==> (exists i int :: 0 <= i && i < len(result) && result[i] == k)
+//@   loop 0 invariant sound: forall i int :: 0 <= i && i < len(res) ==> (res[i] in s.blobs) && inscope(s.blobs[res[i]], scope)
+//@   loop 0 invariant complete: forall k string :: seen0(k) && (k in s.blobs) && inscope(s.blobs[k], scope) ==> (exists i int :: 0 <= i && i < len(res) && res[i] == k)
+//@   loop 0 invariant queue: i_queue(s) && listwf(s.evictQueue)
+
+// deleteNoLock runs with s.mu held: removes exactly the named blob (if it is in scope and its
+// files can be removed) and releases exactly its bytes.
+//@ func store.deleteNoLock
+//@   held s.mu
+//@   requires i_all(s)
+//@   modifies *
+//@   ensures removed: result == nil ==> old(key in s.blobs) && !(key in s.blobs) && s.size == old(s.size) - old(s.blobs[key].size)
+//@   ensures kept_on_error: result != nil ==> ((key in s.blobs) <==> old(key in s.blobs)) && s.size == old(s.size)
+//@   ensures missing: !old(key in s.blobs) ==> result != nil
+//@   ensures out_of_scope: old(key in s.blobs) && !old(inscope(s.blobs[key], scope)) ==> result != nil
+//@   ensures others: forall k string :: k != key ==> ((k in s.blobs) <==> old(k in s.blobs)) && s.blobs[k] == old(s.blobs[k])
+//@   ensures inv: i_all(s) && shape_same(s)
+
+//@ func store.Delete
+//@   requires sshape(s)
+//@   modifies *
+//@   ensures removed: result == nil ==> old(key in s.blobs) && !(key in s.blobs) && s.size == old(s.size) - old(s.blobs[key].size)
+//@   ensures kept_on_error: result != nil ==> ((key in s.blobs) <==> old(key in s.blobs)) && s.size == old(s.size)
+//@   ensures missing: !old(key in s.blobs) ==> result != nil
+//@   ensures others: forall k string :: k != key ==> ((k in s.blobs) <==> old(k in s.blobs)) && s.blobs[k] == old(s.blobs[k])
+
+// Completing a blob makes it evictable unless banned; a failed rename changes nothing.
+//@ func store.MarkComplete
+//@   requires sshape(s)
+//@   modifies *
+//@   ensures missing: !old(key in s.blobs) ==> result != nil
+//@   ensures completed: old(key in s.blobs) && result == nil ==> s.blobs[key].complete && s.blobs[key] == old(s.blobs[key]) && ((s.blobs[key].node != nil) <==> !s.blobs[key].evictionBanned)
+//@   ensures unchanged_on_error: old(key in s.blobs) && result != nil ==> s.blobs[key].complete == old(s.blobs[key].complete) && s.blobs[key].node == old(s.blobs[key].node)
+//@   ensures keys_same: forall k string :: ((k in s.blobs) <==> old(k in s.blobs)) && s.blobs[k] == old(s.blobs[k])
+//@   ensures size_same: s.size == old(s.size)
+
+//@ func store.BanEviction
+//@   requires sshape(s)
+//@   modifies *
+//@   ensures banned: result == nil ==> (key in s.blobs) && s.blobs[key].evictionBanned && s.blobs[key].node == nil
+//@   ensures unchanged_on_error: result != nil && old(key in s.blobs) ==> s.blobs[key].evictionBanned == old(s.blobs[key].evictionBanned) && s.blobs[key].node == old(s.blobs[key].node)
+//@   ensures keys_same: forall k string :: ((k in s.blobs) <==> old(k in s.blobs)) && s.blobs[k] == old(s.blobs[k])
+
+//@ func store.UnbanEviction
+//@   requires sshape(s)
+//@   modifies *
+//@   ensures unbanned: result == nil ==> (key in s.blobs) && !s.blobs[key].evictionBanned
+//@   ensures evictable_iff_complete: result == nil ==> ((s.blobs[key].node != nil) <==> s.blobs[key].complete)
+//@   ensures unchanged_on_error: result != nil && old(key in s.blobs) ==> s.blobs[key].evictionBanned == old(s.blobs[key].evictionBanned) && s.blobs[key].node == old(s.blobs[key].node)
+//@   ensures keys_same: forall k string :: ((k in s.blobs) <==> old(k in s.blobs)) && s.blobs[k] == old(s.blobs[k])
+
+// ---- metadata: sidecar files; the in-memory view is untouched, scopes are enforced ---------------
+//@ func store.SetMetadata
+//@   requires sshape(s) && md != nil
+//@   modifies *
+//@   ensures missing: !old(key in s.blobs) ==> result != nil
+//@   ensures out_of_scope: old(key in s.blobs) && !inscope(s.blobs[key], scope) ==> result != nil
+//@   ensures view_same: (forall k string :: ((k in s.blobs) <==> old(k in s.blobs)) && s.blobs[k] == old(s.blobs[k])) && s.size == old(s.size)
+
+//@ func store.GetMetadata
+//@   requires sshape(s) && md != nil
+//@   ensures missing: !(key in s.blobs) ==> !result0 && result1 != nil
+//@   ensures out_of_scope: (key in s.blobs) && !inscope(s.blobs[key], scope) ==> !result0 && result1 != nil
+//@   ensures found: result0 ==> result1 == nil
+
+//@ func store.DeleteMetadata
+//@   requires sshape(s)
+//@   modifies *
+//@   ensures missing: !old(key in s.blobs) ==> result != nil
+//@   ensures out_of_scope: old(key in s.blobs) && !inscope(s.blobs[key], scope) ==> result != nil
+//@   ensures view_same: (forall k string :: ((k in s.blobs) <==> old(k in s.blobs)) && s.blobs[k] == old(s.blobs[k])) && s.size == old(s.size)
